@@ -482,6 +482,9 @@ pub fn check_scenario(_ctx: &Ctx, sc: &Scenario, t: &mut Tally) {
         c.area = case.area * 3.5;
         variants.push(("area", c));
         let mut c = case.clone();
+        c.area = *r.pick(&[3.0e9f32, 1.0e12, 0.0011]);
+        variants.push(("area_extreme", c));
+        let mut c = case.clone();
         let j = *r.pick(&[-2i32, 1, 3, 6]);
         // scaling down must not take a declared amount below 0.01 kWh (the domain of the statement, and the side of the
         // library's absolute guard the amount is on)
@@ -563,7 +566,7 @@ pub fn run(ctx: &Ctx) -> Report {
     for m in ["direct_electric", "heat_pump", "heat_pump_also_heating", "solar_thermal_plus_boiler", "district_RED1", "district_RED2", "auxiliaries", "auxiliaries_on_two_dhw_systems", "auxiliaries_are_the_only_dhw_electricity", "pv_shared_with_other_services", "load_matching", "two_biomass_types", "biomass_consumption_in_two_lines", "gas_cogeneration_present"] {
         quotas.push((format!("mix.{m}"), tally.get(&format!("mix.{m}")), 50));
     }
-    for i in ["non_epb_consumption", "other_services_non_electric_consumption", "k_exp", "area", "scaling"] {
+    for i in ["non_epb_consumption", "other_services_non_electric_consumption", "k_exp", "area", "area_extreme", "scaling"] {
         quotas.push((format!("invariance.{i}.held"), tally.get(&format!("invariance.{i}.held")), 1000));
     }
     Report {
